@@ -178,7 +178,7 @@ theorem inv_nextHeight {s : State} (hi : Inv s) (hnodue : ∀ id, (s.height, id)
     Inv { s with height := s.height + 1 } := by
   obtain ⟨q1, q2, q3⟩ := hi.core.queue
   refine ⟨⟨?_, hi.core.wf, ?_, ?_, hi.core.budget, hi.core.debt, hi.core.fpool, ?_⟩,
-    Stakes.of_same (s := s) ⟨rfl, fun _ => rfl⟩ hi.stakes, hi.modacc⟩
+    Stakes.of_same (s := s) ⟨rfl, fun _ => rfl⟩ hi.stakes, hi.modacc, hi.cpu⟩
   · show 0 ≤ s.height + 1; have := hi.core.hnn; omega
   · intro id p hp
     have t := hi.core.time id p hp
